@@ -213,6 +213,7 @@ type dstruct struct {
 	fields    []dfield
 	classes   []string
 	recursive bool // self reference through a pointer field
+	plain     bool // no @fp.Value: a "legacy" struct with exported (or mixed) fields
 	values    [][]string
 }
 
@@ -333,12 +334,18 @@ func drawDPkg(t *rapid.T, excl map[string]bool) dpkg {
 			}
 		}
 		nf := rapid.IntRange(1, 6).Draw(t, "nfields")
+		// a plain struct (no @fp.Value) with exported or mixed-visibility fields; never the last struct
+		s.plain = len(s.params) == 0 && i < n-1 && rapid.IntRange(0, 2).Draw(t, "plainStruct") == 0
 		for j := 0; j < nf; j++ {
 			ft := dCompose(t, rapid.IntRange(0, 2).Draw(t, "depth"), s.classes, base, usable)
 			if ft.expr == "" {
 				ft = base[4] // string supports everything
 			}
-			s.fields = append(s.fields, dfield{name: safeNames[j], t: ft})
+			name := safeNames[j]
+			if s.plain && (j == 0 || rapid.Bool().Draw(t, "exported")) {
+				name = strings.ToUpper(name[:1]) + name[1:]
+			}
+			s.fields = append(s.fields, dfield{name: name, t: ft})
 		}
 		// recursion through a pointer (not for Monoid: Ptr monoid is out of the grammar; not generic)
 		hasMonoid := false
@@ -347,7 +354,7 @@ func drawDPkg(t *rapid.T, excl map[string]bool) dpkg {
 				hasMonoid = true
 			}
 		}
-		if !hasMonoid && len(s.params) == 0 && rapid.IntRange(0, 3).Draw(t, "recursive") == 0 {
+		if !hasMonoid && !s.plain && len(s.params) == 0 && rapid.IntRange(0, 3).Draw(t, "recursive") == 0 {
 			s.recursive = true
 			s.fields = append(s.fields, dfield{name: "next", t: dty{expr: "*" + s.name, kind: "self-pointer", caps: all, lit: func(t *rapid.T) string {
 				if rapid.Bool().Draw(t, "nilnext") {
@@ -486,7 +493,11 @@ func ptrOf[T any](v T) *T { return &v }
 		}
 	}
 	for _, s := range p.structs {
-		fmt.Fprintf(&sb, "// @fp.Value\ntype %s%s struct {\n", s.name, s.declParams())
+		if s.plain {
+			fmt.Fprintf(&sb, "// %s is a plain struct without @fp.Value\ntype %s%s struct {\n", s.name, s.name, s.declParams())
+		} else {
+			fmt.Fprintf(&sb, "// @fp.Value\ntype %s%s struct {\n", s.name, s.declParams())
+		}
 		for _, f := range s.fields {
 			e := f.t.expr
 			for _, prm := range s.params {
@@ -618,7 +629,7 @@ func (p dpkg) describe() string {
 	var sb strings.Builder
 	fmt.Fprintf(&sb, "overrides(EqInt mod10=%v, OrdInt reversed=%v, MonoidInt product=%v) recursive=true on last struct only: %v\n", p.intEq10, p.intOrdRev, p.intProd, p.recFlag)
 	for _, s := range p.structs {
-		fmt.Fprintf(&sb, "%s%s derive%v {", s.name, s.declParams(), s.classes)
+		fmt.Fprintf(&sb, "%s%s plain=%v derive%v {", s.name, s.declParams(), s.plain, s.classes)
 		for _, f := range s.fields {
 			fmt.Fprintf(&sb, "%s %s; ", f.name, f.t.expr)
 		}
@@ -659,6 +670,10 @@ func runDerivePackage(p dpkg) (fails []outcome, stage string) {
 		}
 		if first == "" {
 			first = scratch.FirstError(g.Out)
+		}
+		if strings.Contains(first, "can't summon") {
+			// gombok's clean, declared rejection of a shape it does not support: outside the property
+			return []outcome{{"rejected", first}}, "rejected"
 		}
 		return []outcome{{"gombok-failed|" + scratch.ErrorClass(first), "gombok exit " + fmt.Sprint(g.ExitCode) + ": " + clip(g.Out, 1500)}}, "gombok"
 	}
@@ -730,6 +745,15 @@ func DeriveCheck(t *testing.T, name string, casesPerProcess int) {
 		rec.Case(nt, p.describe())
 		fails, stage := runDerivePackage(p)
 		rec.Label("stage:" + stage)
+		if stage == "rejected" {
+			rec.Label("rejected:" + clip(fails[0].msg, 80))
+			return
+		}
+		for _, s := range p.structs {
+			if s.plain {
+				rec.Label("plain-struct")
+			}
+		}
 		for _, f := range fails {
 			if strings.HasPrefix(f.sig, "infra") {
 				rec.Failf(rt, "HARNESS|"+f.sig, "harness problem (not a property violation): %s\nspec:\n%s", f.msg, p.describe())
